@@ -426,6 +426,33 @@ impl Property for C12 {
             self.typed_lists(acc, i, &mut r);
             return;
         }
+        if i % 400 == 57 {
+            // very long replies (a big library) converted and walked on a thread with a SMALL stack (256 KiB, a quarter of
+            // what a spawned thread gets by default): work proportional to the number of lines must not live on the stack
+            let n = 20_000 + r.below(20_000);
+            let key = *r.pick(&["Artist", "Album", "Title", "file", "changed", "sticker", "channel", "playlist", "directory", "tagtype", "x-unknown"]);
+            let other = *r.pick(&["Album", "Date", "Last-Modified", "message", "Genre"]);
+            let fields: Vec<(String, String)> = (0..n).map(|k| if k % 7_001 == 7_000 { kv(other, "2020-06-12T17:53:00Z") } else { kv(key, format!("v{}", if key == "sticker" { format!("a=b{}", k) } else { k.to_string() })) }).collect();
+            let Ok(frame) = frame_of(&fields, None) else { return };
+            acc.inc("long_replies_on_a_small_stack");
+            let t = std::thread::Builder::new().stack_size(256 << 10).spawn(move || {
+                let mut done = 0u64;
+                for (_, conv) in converters() {
+                    let _ = conv(frame.clone());
+                    done += 1;
+                }
+                done
+            });
+            match t.map(|h| h.join()) {
+                Ok(Ok(k)) => {
+                    acc.count("evaluations", k);
+                    acc.count("conversions", k);
+                }
+                Ok(Err(_)) => acc.violation(i, None, format!("panic while converting / walking a reply of {} `{}` lines on a small stack: {}", n, key, panics::take_last().unwrap_or_default()), J::obj().set("key", key).set("lines", n)),
+                Err(e) => acc.inconclusive(format!("cannot spawn the small-stack thread: {}", e)),
+            }
+            return;
+        }
         let grid_blocks = (KINDS.len() * 4) as u64;
         if i < grid_blocks && i % 100 != 7 {
             // directed grid: in a well-formed reply of each kind, EVERY field in turn gets EVERY value of the
